@@ -19,6 +19,7 @@ EXTRA=()
 if [ "$TIER" = "thorough" ]; then
   SELF="$(mktemp /tmp/texel-selftest-XXXXXX.json)"
   "$HERE/selftest.sh" "$ID" "$SELF" || true
+  TEXEL_REPO="$REPO" python3 "$HERE/tools/crosscheck.py" "$ID" "$SELF" || true
   EXTRA=(-extra "$SELF")
 fi
 "$HERE/bin/texelcheck" -property "$ID" -tier "$TIER" -repo "$REPO" \
